@@ -2573,3 +2573,15 @@ M("C05", "edge-to-kill-dropped", PG,
   "        super().add_edge(start_node, end_node, **attrs)",
   "        if not isinstance(end_node, PUMLKillNode):\n            super().add_edge(start_node, end_node, **attrs)",
   "R5.18", "edges into a kill node are silently dropped (seed C05-o)")
+
+# ============================================================ wave n (C01-n, C05-n)
+for _P, _R in (("C01", "R1.22"), ("C05", "R5.19")):
+    M(_P, "kill-scan-skips-loop-nodes", "walk_puml_graph/find_and_add_loop_kill_paths.py",
+      "            sub_graph_node.sub_graph,\n            sub_graph_node.sub_graph.nodes,",
+      "            sub_graph_node.sub_graph,\n            [n for n in sub_graph_node.sub_graph.nodes if not isinstance(n, SubGraphNode)],",
+      _R, "kill edges that start at a nested loop node are not found (seed C01-n)")
+for _P, _R in (("C01", "R1.23"), ("C05", "R5.16")):
+    M(_P, "restart-any-operator-node", WALK,
+      "    if previous_puml_node == logic_list[-1].start_node:",
+      "    if isinstance(previous_puml_node, PUMLOperatorNode):", _R,
+      "a walked path that sits on a nested block's END operator is started again (seed C05-n)")
